@@ -1121,9 +1121,9 @@ theorem cryptoResult_shape {uid : Option String} {cr : Crypto} {eff : Effect} {d
   cases cr with
   | ok t => simp only [cryptoResult] at h; inv h; left; exact ⟨t, rfl, h.2.symm⟩
   | verdict b => simp only [cryptoResult] at h; inv h; right; exact ⟨b, rfl, h.2.symm⟩
-  | ok2 _ _ _ _ => simp [cryptoResult, cryptoErr, kerr, ierr] at h
-  | kmipError _ => simp [cryptoResult, cryptoErr, kerr, ierr] at h
-  | internal => simp [cryptoResult, cryptoErr, kerr, ierr] at h
+  | ok2 _ _ _ _ => simp [cryptoResult, cryptoErr, ierr] at h
+  | kmipError _ => simp [cryptoResult, cryptoErr, kerr] at h
+  | internal => simp [cryptoResult, cryptoErr, ierr] at h
 
 theorem processOperation_data_fits {c : Ctx} {e : Engine} {it : Kmip.Item} {eff : Effect} {d : Data}
     (hk : CryptoKindOk it) (h : processOperation c e it = .ok (eff, d)) : shapeFits it.payload.op d = true := by
